@@ -142,6 +142,20 @@ def c13_stages(tier, seed):
     ]
 
 
+def c20_stages(tier, seed):
+    big = tier != "quick"
+    return [
+        c01_family("F20_t" if big else "F20_q", replay="C20", fam="F20", leafs="F20_Leafs", comps="F20_Comps",
+                   inlines="F20_Inlines", maxsel=3 if big else 2, maxnodes=6 if big else 5, maxdepth=3, dirs="DirsNone",
+                   outs="OT_Abstract"),
+        c01_family("F4_c20", replay="C20", fam="F4", leafs="F4_Leafs", comps="F4_Comps", inlines="F4_Inlines",
+                   maxsel=3 if big else 2, maxnodes=5 if big else 4, maxdepth=3, dirs="DirsNone", outs="OT_Abstract"),
+        c01_family("F5_c20", replay="C20", fam="F5", leafs="F5_Leafs", maxsel=3 if big else 2, maxnodes=3 if big else 2,
+                   dirs="DirsNone"),
+        c04_stage("c20_faults", "{2,3,4}", 2, "plain", replay="C20"),
+    ]
+
+
 EXEC_ASSUME = [
     "the reference semantics in spec/Exec.tla + Coerce.tla is a faithful transcription of the GraphQL execution algorithm (checked by in-model theorems KeyPresence/WellFormedRoot and by hand against the specification text)",
     "exhaustive only within the stated bounds (families, selections per set, nodes, depth); schema S1 fixed",
@@ -174,6 +188,16 @@ PROPS = {
              "and >= 1 thunk",
         assumptions=EXEC_ASSUME + ["events are logged by harness resolvers/thunks (no library hook)",
                                    "order inside one top-level field's subtree is not constrained"]),
+    "C20": dict(
+        stages=c20_stages, level="model_checking",
+        rule="TLC enumerates documents of family F20 (lists, lists of lists, abstract lists, merged occurrences, literal and "
+             "variable arguments), F4 (abstract dispatch), F5 (arguments) and fault tables of MC_C04; Exec.tla predicts the "
+             "multiset of resolver / type-resolver invocations with path, parent runtime type, field, source, coerced "
+             "arguments, declared return type, occurrences and coerced variables; the harness replays each through Do, "
+             "Execute, ExecutePlan and a reuse history (same plan, two rounds over all runs, distinct roots and contexts, "
+             "argument-mutating resolvers). Non-trivial = document with an invocation under a list/abstract type or with "
+             "arguments",
+        assumptions=EXEC_ASSUME + ["harness callbacks themselves check Info.Schema/RootValue/Operation/Fragments/context identity"]),
     "C05": dict(
         stages=c05_stages, level="model_checking",
         rule="TLC enumerates every (argument of Q.g, route in {literal, variable, variable default}, value) triple over "
@@ -262,5 +286,15 @@ MANIFEST_TEXT["C13"] = dict(
     note="Trusted: TLC, ExecSteps.tla, harness event logging in resolvers and thunks. Bounded document family; repeated runs "
          "sample Go's map iteration orders.",
     technique="TLA+ small-step spec (ExecSteps) model-checked by TLC + trace validation of recorded resolver/thunk event logs")
+
+MANIFEST_TEXT["C20"] = dict(
+    text="Model checking: for every TLC-enumerated document/variables/outcome table the reference semantics predicts exactly "
+         "which resolvers and type resolvers are invoked and with which parameters; instrumented callbacks of the real "
+         "library record ResolveParams/ResolveTypeParams, which must match as a multiset (at most once per path, exactly "
+         "once outside nulled subtrees) through Do, Execute, ExecutePlan and plan-reuse histories with changing roots, "
+         "contexts and argument-mutating resolvers.",
+    note="Trusted: TLC, Exec.tla's calls/tcalls bookkeeping, harness callbacks. IsTypeOf parameters are exercised only "
+         "through the default type resolution family when present.",
+    technique="TLA+ reference semantics predicting the resolver-call multiset, replayed with instrumented callbacks and plan-reuse histories")
 
 NOT_APPLICABLE = {}
